@@ -99,7 +99,11 @@ def make_inject(state):
             for s in head.state.actions.keys():
                 if s.name != "STOP":
                     state["last"] = head.position
-                    head.token_ahead = Token(s, "", head.position, length=0)
+                    # a zero-width token that carries a display text (the usual "insert the missing
+                    # ';'" recovery): its length, not the length of its value, moves the parser
+                    shown = getattr(s.recognizer, "value", None)
+                    head.token_ahead = Token(s, shown if isinstance(shown, str) and shown else "?",
+                                             head.position, length=0)
                     return True
         return default_error_recovery(head)
     return inject_expected
@@ -370,6 +374,35 @@ def _worker(job):
     return out
 
 
+_CONFIRMED = [0]
+
+
+def _terminates_given_time(gtext, delim, sname, w, glr, kw=None, limit=40):
+    """a time-out of the (short) per-case limit is confirmed before it is reported: the same
+    parse is repeated alone with a generous budget (machine load must not raise an alarm);
+    at most four confirmations per run -- a parser that loops on many inputs is reported from
+    the first confirmed ones"""
+    import parglare
+    _CONFIRMED[0] += 1
+    if _CONFIRMED[0] > 4:
+        return False
+    from parglare import GLRParser, Grammar, Parser
+    from lib import impl
+    try:
+        with impl.time_limit(30), impl.quiet():
+            g = Grammar.from_string(gtext)
+            er = {"default": True, "skip": make_skip(delim), "inject": make_inject({})}[sname]
+            p = GLRParser(g, error_recovery=er) if glr else Parser(g, error_recovery=er, **(kw or {}))
+    except BaseException:  # noqa
+        return False
+    try:
+        with impl.time_limit(limit):
+            p.parse(w)
+        return True
+    except BaseException as e:  # noqa
+        return impl.exc_kind(e) != "Timeout"
+
+
 # ---------------------------------------------------------------- jobs
 def gen_jobs(ctx):
     rng = ctx.rng
@@ -582,6 +615,11 @@ def run(ctx):
                         o = outs[res4["_m"][sname]]
                         if o[0] == 3:
                             st["lr_segment_diverges"] = st.get("lr_segment_diverges", 0) + 1
+                        elif _terminates_given_time(r["gtext"], r["delim"], sname, w, False,
+                                                    dict(build_tree=True, prefer_shifts=c["ps"],
+                                                         prefer_shifts_over_empty=c["pse"], tables=c["tables"],
+                                                         consume_input=c["consume"])):
+                            st["timeouts_not_confirmed"] = st.get("timeouts_not_confirmed", 0) + 1
                         else:
                             ctx.violation("Parser.parse with error recovery (%s) did not terminate within the "
                                           "time limit (model result tag %d, parser without recovery: %s)"
@@ -711,6 +749,9 @@ def run(ctx):
                     st["glr_plain_timeouts"] = st.get("glr_plain_timeouts", 0) + 1
                     continue
                 if k == "exc:Timeout":
+                    if _terminates_given_time(r["gtext"], r["delim"], sname, w, True):
+                        st["timeouts_not_confirmed"] = st.get("timeouts_not_confirmed", 0) + 1
+                        continue
                     ctx.violation("GLRParser.parse with error recovery (%s) did not terminate within the time limit" % sname,
                                   rep, key="glr-timeout-" + sname)
                     continue
